@@ -195,6 +195,9 @@ class SparseOracle:
                 res.violate("C06:hidden_row_nonzero", {"unselected": unsel.tolist(), "where": where})
         user_groups = self.cfg["params"].get("groups")
         groups_ = getattr(m, "groups_", None)
+        if where == "after_rejected_fit":
+            # the fitted state belongs to the last COMPLETED call; the user may have declared other groups since
+            return nz
         if user_groups is None:
             if groups_ is not None:
                 res.violate("C06:groups_completion", {"groups_": [list(map(int, g)) for g in groups_], "user": None})
@@ -292,6 +295,10 @@ def execute(record):
                 oracle.X = pool[op.get("data", 0)][0]
                 oracle.pre = None
                 outcome = run_generic_op(op, model, world, pool, cur_cfg, res, log)
+                if outcome == "rejected" and kind == "bad_fit":
+                    # a call REJECTED by validation leaves the estimator as it was: everything "after any fit or path" still
+                    # holds for the state of the last completed call
+                    oracle.checkpoint("after_rejected_fit")
                 if outcome != "ok":
                     continue
                 if kind == "fit":
